@@ -33,8 +33,31 @@ pub fn cls_token(p: &Packet) -> String {
     match p {
         Packet::Tiny(t) => format!("T.{}.{}", t.reqi.0, serde_json::to_value(&t.subt).ok().and_then(|s| s.as_str().map(|x| x.to_string())).map(|name| tiny_code(&name)).unwrap_or(999)),
         Packet::Ver(ver) => format!("V.{}", ver.insimver),
-        _ => format!("O.{}", ty),
+        // every other kind: its name and a digest of its contents (a packet delivered with altered fields is not "the same packet")
+        _ => {
+            let mut h: u32 = 0x811c9dc5;
+            for b in v.to_string().bytes() { h ^= b as u32; h = h.wrapping_mul(0x0100_0193); }
+            format!("O.{}.{:08x}", ty, h)
+        },
     }
+}
+
+/// frames of the kinds whose text runs to the end of the frame (MSO, III, MTC, ACR, BTN), with a text that fills its
+/// 4-byte-aligned space exactly — no NUL after it inside the frame
+pub fn exact_text_frames(compressed: bool) -> Vec<Vec<u8>> {
+    let mut out = vec![];
+    for (ty, head) in [(11u8, 8usize), (12, 8), (14, 8), (55, 8), (45, 12)] {
+        for text in [&b"abcd"[..], &b"exactly8"[..]] {
+            let mut f = vec![0u8; head];
+            f[1] = ty; f[2] = 1;
+            if ty == 45 { f[4] = 1; f[8] = 10; f[9] = 10; f[10] = 50; f[11] = 20; }
+            f.extend_from_slice(text);
+            f[0] = size_byte(compressed, f.len());
+            let c = classify(compressed, &f);
+            if c != "E" && c != "F" && c != "P" { out.push(f); }
+        }
+    }
+    out
 }
 
 /// TinyType variant name -> wire value, by asking the real decoder once for every byte
@@ -120,6 +143,22 @@ thread_local! {
     static RT: tokio::runtime::Runtime = tokio::runtime::Builder::new_current_thread().enable_time().start_paused(true).build().unwrap();
 }
 
+thread_local! {
+    /// when set, the connection performs its handshake (an IS_ISI with this request id) before the first read; the bytes
+    /// it writes for that are not part of the read trace
+    pub static HANDSHAKE: std::cell::Cell<Option<u8>> = const { std::cell::Cell::new(None) };
+}
+fn hs_isi(reqi: u8) -> insim::insim::Isi { insim::insim::Isi { reqi: insim::identifiers::RequestId(reqi), ..Default::default() } }
+fn hs_suffix() -> String { HANDSHAKE.with(|h| h.get()).map(|r| format!(" hs={}", r)).unwrap_or_default() }
+/// the optional seventh token of a read line: `ws=<write script>` or `hs=<request id>`
+fn parse_seventh(t: Option<&&str>) -> (Vec<WEv>, Option<u8>) {
+    match t {
+        Some(x) if x.starts_with("hs=") => (vec![], x[3..].parse().ok()),
+        Some(x) => (parse_wevents(x.trim_start_matches("ws=")), None),
+        None => (vec![], None),
+    }
+}
+
 /// Drive a real connection over a scripted transport: call `read` until the connection is over.
 pub fn run_reads(fl: Flavour, compressed: bool, verify: bool, events: Vec<Ev>, wscript: Vec<WEv>) -> RunOut {
     let max_reads = events.len() * 3 + 8 + events.iter().map(|e| if let Ev::Data(b) = e { b.len() / 4 + 1 } else { 0 }).sum::<usize>();
@@ -132,6 +171,10 @@ pub fn run_reads(fl: Flavour, compressed: bool, verify: bool, events: Vec<Ev>, w
             let r = guard(std::panic::AssertUnwindSafe(move || {
                 let mut f = insim::net::blocking_impl::Framed::new(Box::new(tr2), Codec::new(mode_of(compressed)));
                 f.verify_version(verify);
+                if let Some(r) = HANDSHAKE.with(|h| h.get()) {
+                    let _ = f.handshake(hs_isi(r));
+                    let mut s = sc.lock().unwrap(); s.trace.clear(); s.out.clear(); s.wlog.clear(); s.write_calls.clear();
+                }
                 for _ in 0..max_reads {
                     let before = sc.lock().unwrap().injected;
                     let r = f.read();
@@ -158,6 +201,10 @@ pub fn run_reads(fl: Flavour, compressed: bool, verify: bool, events: Vec<Ev>, w
                     rt.block_on(async move {
                         let mut f = insim::net::tokio_impl::Framed::new(Box::new(tr2.clone()), Codec::new(mode_of(compressed)));
                         f.verify_version(verify);
+                        if let Some(r) = HANDSHAKE.with(|h| h.get()) {
+                            let _ = f.handshake(hs_isi(r), std::time::Duration::from_secs(5)).await;
+                            let mut s = sc.lock().unwrap(); s.trace.clear(); s.out.clear(); s.wlog.clear(); s.write_calls.clear();
+                        }
                         for _ in 0..max_reads {
                             let before = sc.lock().unwrap().injected;
                             let r = f.read().await;
@@ -435,7 +482,7 @@ pub fn read_case(ctx: &mut Ctx, prop: &str, case: &Case) -> Vec<String> {
     let (tbl_s, tbl) = class_table(case.compressed, &case.frames);
     let r = run_reads(case.fl, case.compressed, case.verify, case.events.clone(), case.wscript.clone());
     let mut op = format!("framed.read {} {} {} {} {}", case.fl.tok(), mode_tok(case.compressed), if case.verify { "v1" } else { "v0" }, tbl_s, script_text(&r.log));
-    if !case.wscript.is_empty() { op.push_str(&format!(" ws={}", wscript_text(&case.wscript))); }
+    if !case.wscript.is_empty() { op.push_str(&format!(" ws={}", wscript_text(&case.wscript))); } else { op.push_str(&hs_suffix()); }
     let res = if r.trace.is_empty() { "-".to_string() } else { r.trace.join(";") };
     ctx.case(&op, &res);
     // ---- oracle: the property's observable statement on the real connection
@@ -455,7 +502,7 @@ pub fn read_case(ctx: &mut Ctx, prop: &str, case: &Case) -> Vec<String> {
         let got = fault_free(&r.trace);
         let mut replay = format!("conn.case {} {} {} {} {}", case.fl.tok(), mode_tok(case.compressed), if case.verify { "v1" } else { "v0" },
             case.frames.iter().map(|f| hex(f)).collect::<Vec<_>>().join("+"), script_text(&case.events));
-        if !case.wscript.is_empty() { replay.push_str(&format!(" ws={}", wscript_text(&case.wscript))); }
+        if !case.wscript.is_empty() { replay.push_str(&format!(" ws={}", wscript_text(&case.wscript))); } else { replay.push_str(&hs_suffix()); }
         if got != exp && !exp.contains(&"abort".to_string()) {
             // attribute the difference
             let strip = |v: &[String]| v.iter().filter(|t| !t.starts_with("w=")).cloned().collect::<Vec<_>>();
@@ -498,7 +545,8 @@ pub fn replay_line(ctx: &mut Ctx, prop: &str, l: &str) -> bool {
     let w: Vec<&str> = l.split_whitespace().collect();
     match w.as_slice() {
         ["conn.case", fl, m, v, frames, evs] | ["conn.case", fl, m, v, frames, evs, _] => {
-            let ws = if w.len() == 7 { parse_wevents(w[6].trim_start_matches("ws=")) } else { vec![] };
+            let (ws, hs) = parse_seventh(w.get(6));
+            HANDSHAKE.with(|h| h.set(hs));
             let case = Case {
                 fl: if *fl == "tokio" { Flavour::Tokio } else { Flavour::Blocking },
                 compressed: *m == "c",
@@ -508,16 +556,19 @@ pub fn replay_line(ctx: &mut Ctx, prop: &str, l: &str) -> bool {
                 wscript: ws,
             };
             let _ = read_case(ctx, prop, &case);
+            HANDSHAKE.with(|h| h.set(None));
             true
         },
         ["framed.read", fl, m, v, tbl, evs] | ["framed.read", fl, m, v, tbl, evs, _] => {
             // a bare correspondence line: the frames are the keys of the class table
-            let ws = if w.len() == 7 { parse_wevents(w[6].trim_start_matches("ws=")) } else { vec![] };
+            let (ws, hs) = parse_seventh(w.get(6));
+            HANDSHAKE.with(|h| h.set(hs));
             let frames: Vec<Vec<u8>> = if *tbl == "-" { vec![] } else { tbl.split(';').map(|kv| unhex(kv.split('=').next().unwrap())).collect() };
             let r = run_reads(if *fl == "tokio" { Flavour::Tokio } else { Flavour::Blocking }, *m == "c", *v == "v1", parse_events(evs), ws.clone());
             let (tbl_s, _) = class_table(*m == "c", &frames);
             let mut op = format!("framed.read {} {} {} {} {}", fl, m, v, tbl_s, script_text(&r.log));
-            if !ws.is_empty() { op.push_str(&format!(" ws={}", wscript_text(&ws))); }
+            if !ws.is_empty() { op.push_str(&format!(" ws={}", wscript_text(&ws))); } else { op.push_str(&hs_suffix()); }
+            HANDSHAKE.with(|h| h.set(None));
             ctx.case(&op, &if r.trace.is_empty() { "-".to_string() } else { r.trace.join(";") });
             true
         },
@@ -615,6 +666,38 @@ pub fn generate_reads(ctx: &mut Ctx, prop: &str) {
             }
         }
         ctx.exhaustive_domains.push(format!("all segmentations of 4 short streams (8..12 bytes), both flavours, mode {}{}", mode_tok(compressed), if quick { " (every 3rd composition of the 12-byte stream in quick)" } else { "" }));
+        // 1c. texts that run to the end of their frame without a NUL, followed by other packets in the same segment
+        {
+            let exact = exact_text_frames(compressed);
+            *ctx.distribution.entry(format!("exact-fit text frames ({})", mode_tok(compressed))).or_insert(0) = exact.len() as u64;
+            for fl in [Flavour::Blocking, Flavour::Tokio] {
+                for e in &exact {
+                    for frames in [vec![e.clone(), ping.clone()], vec![ka.clone(), e.clone(), e.clone(), ping.clone()]] {
+                        for style in [1u64, 2, 4] {
+                            let mut evs = random_partition(&mut ctx.rng, &frames.concat(), style);
+                            evs.push(Ev::Eof);
+                            let _ = read_case(ctx, prop, &Case { fl, compressed, verify: false, frames: frames.clone(), events: evs, wscript: vec![] });
+                        }
+                    }
+                }
+            }
+        }
+        // 1d. the same short sessions after the connection has performed its handshake (request id 0 as the builder sends it, and 1)
+        for fl in [Flavour::Blocking, Flavour::Tokio] {
+            for hs in [0u8, 1] {
+                for verify in [false, true] {
+                    for frames in [vec![ka.clone(), ping.clone(), ka.clone()], vec![ping.clone(), pool.ver[9].clone(), ka.clone(), pool.bad[0].clone(), ping.clone()]] {
+                        for style in [0u64, 1, 2] {
+                            let mut evs = random_partition(&mut ctx.rng, &frames.concat(), style);
+                            evs.push(Ev::Eof);
+                            HANDSHAKE.with(|h| h.set(Some(hs)));
+                            let _ = read_case(ctx, prop, &Case { fl, compressed, verify, frames: frames.clone(), events: evs, wscript: vec![] });
+                            HANDSHAKE.with(|h| h.set(None));
+                        }
+                    }
+                }
+            }
+        }
         // 1b. the largest frames a size byte can announce (255 x 4 = 1020 bytes compressed, 255 bytes uncompressed), decodable
         // (a padded TINY) and undecodable (unknown type), between ordinary frames
         {
@@ -686,6 +769,21 @@ pub fn generate_reads(ctx: &mut Ctx, prop: &str) {
                                 let mut evs = random_partition(&mut ctx.rng, &frames.concat(), style);
                                 evs.push(Ev::Eof);
                                 let _ = read_case(ctx, prop, &Case { fl, compressed, verify, frames, events: evs, wscript: vec![] });
+                            }
+                        }
+                    }
+                    // … and of whatever else the connection did before: the handshake (request id 0 as the builder sends it, and non-zero)
+                    for hs in [0u8, 1, 255] {
+                        for v in [0usize, 8, 9, 10, 255] {
+                            for reqi in [0u8, 1] {
+                                let mut b = pool.ver[v].clone(); b[2] = reqi;
+                                let frames = vec![ping.clone(), b.clone(), ping.clone()];
+                                let style = ctx.rng.next();
+                                let mut evs = random_partition(&mut ctx.rng, &frames.concat(), style);
+                                evs.push(Ev::Eof);
+                                HANDSHAKE.with(|h| h.set(Some(hs)));
+                                let _ = read_case(ctx, prop, &Case { fl, compressed, verify, frames, events: evs, wscript: vec![] });
+                                HANDSHAKE.with(|h| h.set(None));
                             }
                         }
                     }
